@@ -77,6 +77,11 @@ func init() {
 	profiles["C02"] = &profile{
 		config: func(r *RNG, thorough bool) *RunConfig {
 			cfg := baseConfig("C02", r, thorough)
+			if rf := NewRNG(Mix(r.U64(), 0x66726d65)); rf.Bool(0.2) {
+				// persistent nodes whose database now and then refuses the write of a frame
+				cfg.PFrameErr = 0.1
+				defer func() { mixStores(cfg, rf, 0.6) }()
+			}
 			cfg.FullReread = true
 			if cfg.N0 > 5 {
 				cfg.N0 = 5
